@@ -1232,7 +1232,7 @@ impl<'a> Query<'a> {
         mut querystring: &'a str,
         attributes: Vec<&'a str>,
     ) -> Result<(Self, &'a str), StamError> {
-        let mut end = 7;
+        let mut end = "SELECT".len();
         querystring = querystring[end..].trim_start();
         let (qualifier, remainder) = Self::parse_qualifier(querystring)?;
         querystring = remainder;
@@ -1335,7 +1335,7 @@ impl<'a> Query<'a> {
         mut querystring: &'a str,
         attributes: Vec<&'a str>,
     ) -> Result<(Self, &'a str), StamError> {
-        let mut end = 4;
+        let mut end = "ADD".len();
         querystring = querystring[end..].trim_start();
         let resulttype = match &querystring.split(QUERYSPLITCHARS).next() {
             Some("ANNOTATION") | Some("annotation") => {
@@ -1411,7 +1411,7 @@ impl<'a> Query<'a> {
         mut querystring: &'a str,
         attributes: Vec<&'a str>,
     ) -> Result<(Self, &'a str), StamError> {
-        let mut end = 7;
+        let mut end = "DELETE".len();
         querystring = querystring[end..].trim_start();
         let resulttype = match &querystring.split(QUERYSPLITCHARS).next() {
             Some("ANNOTATION") | Some("annotation") => {
@@ -1483,7 +1483,10 @@ impl<'a> Query<'a> {
         let mut subqueries = Vec::new();
         if querystring.trim_start().chars().nth(0) == Some('{') {
             loop {
-                querystring = &querystring[1..].trim_start(); //strips the { or | and any spaces
+                //strips the { or | and any spaces
+                let mut chars = querystring.trim_start().chars();
+                chars.next();
+                querystring = chars.as_str().trim_start();
                 let (attributes, remainder) = Self::parse_attributes(querystring)?;
                 querystring = remainder;
                 if querystring.starts_with("SELECT") {
@@ -4332,6 +4335,13 @@ fn parse_text_qualifiers<'a>(
     }
 }
 
+/// Parses a numeric literal, a value that can not be represented is a syntax error
+fn parse_number<T: std::str::FromStr>(value: &str) -> Result<T, StamError> {
+    value.parse().map_err(|_| {
+        StamError::QuerySyntaxError(format!("Invalid numeric value: '{}'", value), "")
+    })
+}
+
 fn parse_dataoperator<'a>(
     opstr: &'a str,
     value: &'a str,
@@ -4347,19 +4357,19 @@ fn parse_dataoperator<'a>(
             _ => unreachable!("boolean should be true or false"),
         },
         ("=", ArgType::Integer) => {
-            DataOperator::EqualsInt(value.parse().expect("str->int conversion should work"))
+            DataOperator::EqualsInt(parse_number::<isize>(value)?)
         }
         ("=", ArgType::Float) => {
-            DataOperator::EqualsFloat(value.parse().expect("str->float conversion should work"))
+            DataOperator::EqualsFloat(parse_number::<f64>(value)?)
         }
         ("!=", ArgType::String) => {
             DataOperator::Not(Box::new(DataOperator::Equals(Cow::Borrowed(value))))
         }
         ("!=", ArgType::Integer) => DataOperator::Not(Box::new(DataOperator::EqualsInt(
-            value.parse().expect("str->int conversion should work"),
+            parse_number::<isize>(value)?,
         ))),
         ("!=", ArgType::Float) => DataOperator::Not(Box::new(DataOperator::EqualsFloat(
-            value.parse().expect("str->float conversion should work"),
+            parse_number::<f64>(value)?,
         ))),
         ("!=", ArgType::Null) => DataOperator::Not(Box::new(DataOperator::Null)),
         ("!=", ArgType::Any) => DataOperator::Not(Box::new(DataOperator::Any)), //this is a tautology, always fails
@@ -4391,28 +4401,28 @@ fn parse_dataoperator<'a>(
             DataOperator::Not(Box::new(DataOperator::Or(values)))
         }
         (">", ArgType::Integer) => {
-            DataOperator::GreaterThan(value.parse().expect("str->int conversion should work"))
+            DataOperator::GreaterThan(parse_number::<isize>(value)?)
         }
         (">=", ArgType::Integer) => DataOperator::GreaterThanOrEqual(
-            value.parse().expect("str->int conversion should work"),
+            parse_number::<isize>(value)?,
         ),
         ("<", ArgType::Integer) => {
-            DataOperator::LessThan(value.parse().expect("str->int conversion should work"))
+            DataOperator::LessThan(parse_number::<isize>(value)?)
         }
         ("<=", ArgType::Integer) => {
-            DataOperator::LessThanOrEqual(value.parse().expect("str->int conversion should work"))
+            DataOperator::LessThanOrEqual(parse_number::<isize>(value)?)
         }
         (">", ArgType::Float) => DataOperator::GreaterThanFloat(
-            value.parse().expect("str->float conversion should work"),
+            parse_number::<f64>(value)?,
         ),
         (">=", ArgType::Float) => DataOperator::GreaterThanOrEqualFloat(
-            value.parse().expect("str->float conversion should work"),
+            parse_number::<f64>(value)?,
         ),
         ("<", ArgType::Float) => {
-            DataOperator::LessThanFloat(value.parse().expect("str->float conversion should work"))
+            DataOperator::LessThanFloat(parse_number::<f64>(value)?)
         }
         ("<=", ArgType::Float) => DataOperator::LessThanOrEqualFloat(
-            value.parse().expect("str->float conversion should work"),
+            parse_number::<f64>(value)?,
         ),
         ("=", ArgType::List) => {
             let values: Vec<_> = value
@@ -4521,7 +4531,13 @@ impl<'a> Assignment<'a> {
                             ))
                         })?,
                         ArgType::String => DataValue::String(value.to_string()),
-                        _ => unreachable!("argtype should not occur"),
+                        ArgType::Null => DataValue::Null,
+                        _ => {
+                            return Err(StamError::QuerySyntaxError(
+                                format!("Value '{}' is of a type that is not supported in an assignment", value),
+                                "",
+                            ))
+                        }
                     }
                 };
                 Self::Data { set, key, value }
